@@ -19,7 +19,7 @@ RULE = ('families: hit = loss-free honest network of N in {2..40} nodes joined t
         'pages = focused sweep: one storer holding n = 1..100 records, one searcher, plus a lookup during which n/2 further records reach the storer '
         '(one between any two datagrams); expiry = announce, 24 h - 1 s, 24 h + 1 s of virtual time; stale = N >= 10: blob announced by one of its K '
         'closest nodes, 24 h + 1 s later by a far node, looked up from every node incl. the one left with only the expired record; '
-        'fault = loss in {0.1,0.3,0.6}, dead subset, hostile subset from a 14-entry catalogue, node and value lookups from honest nodes. '
+        'fault = loss in {0.1,0.3,0.6}, dead subset, hostile subset from a 13-entry catalogue (+ cases of their own for kinds added later: repeated_page), node and value lookups from honest nodes. '
         'distinct = hash(family, N, delay class, fault mix, hostile kinds, lookup kind); non-trivial = everything except N=2 zero-delay hits')
 ASSUMPTIONS = ['datagram network fully simulated (no sockets); one-way delay <= rpc_timeout/2 - eps in hit scenarios (longer is indistinguishable from loss)',
                'virtual clock: all deadlines in virtual seconds; wall-clock watchdog => inconclusive',
@@ -29,11 +29,12 @@ REQUIRED_HITS = ['H1.lookup_found_announcer', 'H2.checked', 'H3.before_expiry_fo
                  'H4.page_sweep_checked', 'T1.lookup_terminated', 'T1.with_loss', 'T1.with_dead', 'T1.with_hostile', 'T2.node_results_checked',
                  'T2.value_results_checked', 'H4.page_sweep_checked_searcher_is_announcer', 'H4.multi_announcer_all_found_by_an_announcer', 'net.duplicates_delivered', 'net.reordered', 'hostile.garbage', 'hostile.endless_pages',
                  'hostile.reserved_ips', 'hostile.own_id_contacts', 'hostile.bad_compact', 'size.2', 'size.40',
-                 'H3.holder_of_expired_record_found_fresh_announcer', 'T1.paging_while_records_arrive', 'hostile.repeated_page']
+                 'H3.holder_of_expired_record_found_fresh_announcer', 'T1.paging_while_records_arrive', 'hostile.repeated_page_served_again']
 K, ALPHA, RPC = 8, 5, 5.0
 MAX_PROBES = 3000      # no honest or merely faulty network of <= 40 nodes needs more probes for one lookup
 HOSTILE = ['garbage', 'wrong_rpc_id', 'contacts_wrong_shape', 'own_id_contacts', 'reserved_ips', 'bad_ports', 'oversized', 'bad_compact',
-           'missing_token', 'endless_pages', 'fake_closer_contacts', 'impersonate_key', 'fake_id_real_addr', 'repeated_page']
+           'missing_token', 'endless_pages', 'fake_closer_contacts', 'impersonate_key', 'fake_id_real_addr']
+HOSTILE_LATER = ['repeated_page']      # kinds added later get cases of their own: the rotation of the older ones (and so their cases) stays as it was
 
 
 def plan(tier):
@@ -53,6 +54,10 @@ def gen_cases(rng, tier, shard, nshards):
     # (drawn after the older families so that their descriptors stay what they were for a given seed)
     fams.append([{'fam': 'stale', 'seed': rng.getrandbits(48), 'n': 10 if q else rng.choice([10, 12, 16]), 'blobs': 6}
                  for _ in range((1 if 8 <= shard < 10 else 0) if q else 3)])
+    fams.append([{'fam': 'fault', 'seed': rng.getrandbits(48), 'n': rng.choice([6, 10] if q else [6, 10, 16, 24]),
+                  'hostile': [HOSTILE_LATER[i % len(HOSTILE_LATER)]] + ([] if q else rng.sample(HOSTILE, rng.choice([0, 1, 2]))),
+                  'loss': 0 if q else rng.choice([0, 0, 0.1, 0.3]), 'dead': 0 if q else rng.choice([0, 0, 1])}
+                 for i in range((1 if 10 <= shard < 14 else 0) if q else 40)])
     while any(fams):
         for f in fams:
             if f:
@@ -93,6 +98,7 @@ class SimNet:
         self.replies_seen = collections.defaultdict(set)      # dst -> {(node_id, src)}
         self.sent = self.delivered = self.dropped = self.duplicated = self.reordered = 0
         self.escaped = collections.Counter()
+        self.replayed_pages = 0              # times a 'repeated_page' liar was asked again by the same node for the same key (and served the same page)
         self._last_delivery_due = {}
 
     def install(self):
@@ -166,6 +172,7 @@ def valid_public_peer(address, port):
 def make_hostile(kind, r, my_id, net, real_addrs, key_hint):
     """returns callable(data, src) -> list of reply datagrams (bytes)"""
     counter = [0]
+    asked = collections.Counter()
 
     def fresh_compact():
         counter[0] += 1
@@ -231,6 +238,8 @@ def make_hostile(kind, r, my_id, net, real_addrs, key_hint):
             return [reply(rpc_id, {b'token': b't' * 48, b'contacts': [], key: [fresh_compact() for _ in range(K)], b'p': 2 ** 40})]
         if kind == 'repeated_page':
             # ignores the page argument: the same full page of well-formed records again and again, two more pages promised
+            asked[(src, key)] += 1
+            net.replayed_pages += asked[(src, key)] > 1
             return [reply(rpc_id, {b'token': b't' * 48, b'contacts': [], b'p': 3,
                                    key: [bytes([23, 77, 0, i + 1]) + (3333).to_bytes(2, 'big') + hashlib.sha384(b'rp%d' % i).digest() for i in range(K)]})]
         return [reply(rpc_id, {b'token': b't' * 48, b'contacts': res})]
@@ -747,6 +756,8 @@ async def _fault(rec, case, loop):
                             rec.violation('C12/T2/value-lookup-yielded-invalid-peer-address', f'value lookup yielded {p.address}:{p.tcp_port}',
                                           {'address': p.address, 'port': p.tcp_port, 'hostile': case['hostile']})
                             break
+        if net.replayed_pages:
+            rec.hit('hostile.repeated_page_served_again')
         for name, cnt in net.escaped.items():
             rec.log(f'exception_escaped_datagram_received.{name}', cnt)
         rec.case(['fault', n, sorted(case['hostile']), case['loss'] > 0, len(dead_idx)],
